@@ -306,7 +306,10 @@ def run(tier, seed):
                   ("explore", 2, False, False, "constrained", None), ("explore", 3, True, False, "constrained", 2),
                   ("explore", 2, False, True, "constrained", 2), ("explore", 2, True, False, "extlock", 1), ("explore", 3, True, False, "extlock", 0),
                   ("explore", 0, True, False, False, 0), ("explore", 1, True, False, False, 0), ("explore", 5, True, False, False, 1),
-                  ("free", 0, False, 2), ("free", 1, True, 2), ("free", 2, True, 50), ("free", 3, True, 50), ("free", 3, False, 50), ("free", 7, True, 20)]
+                  ("free", 0, False, 2), ("free", 1, True, 2), ("free", 2, True, 50), ("free", 3, True, 50), ("free", 3, False, 50), ("free", 7, True, 20),
+                  ("explore", 9, True, False, False, 1), ("explore", 9, False, False, False, 2), ("explore", 17, False, False, False, 1),
+                  ("explore", 33, True, False, False, 0), ("explore", 65, False, False, False, 0), ("explore", 129, True, False, False, 0),
+                  ("free", 33, True, 5), ("free", 65, False, 5), ("free", 257, True, 2), ("free", 1025, False, 1)]
     else:
         shards = [("explore", 2, False, False, False, None), ("explore", 2, True, False, False, 3),
                   ("explore", 3, False, False, False, 3), ("explore", 3, True, False, False, 2),
@@ -314,7 +317,11 @@ def run(tier, seed):
                   ("explore", 2, False, False, "constrained", 3), ("explore", 3, True, False, "constrained", 1),
                   ("explore", 2, True, False, "extlock", 0),
                   ("explore", 0, True, False, False, 0), ("explore", 1, True, False, False, 0),
-                  ("free", 0, False, 2), ("free", 1, True, 2), ("free", 2, True, 10), ("free", 3, False, 10)]
+                  ("free", 0, False, 2), ("free", 1, True, 2), ("free", 2, True, 10), ("free", 3, False, 10),
+                  # batches far larger than the explored ones: default schedule, 9 tasks also with one pre-emption
+                  ("explore", 9, True, False, False, 0), ("explore", 9, False, False, False, 1), ("explore", 17, False, False, False, 0),
+                  ("explore", 33, True, False, False, 0), ("explore", 65, False, False, False, 0), ("explore", 129, False, False, False, 0),
+                  ("free", 33, True, 3), ("free", 65, False, 3), ("free", 257, False, 1)]
     split = []
     for sh in shards:
         if sh[0] == "explore":
